@@ -2061,20 +2061,6 @@ func (ls *LState) Resume(th *LState, fn *LFunction, args ...LValue) (ResumeState
 		return ResumeOK, nil, append([]LValue(nil), args...)
 	}
 	isstarted := th.isStarted()
-	if !isstarted {
-		base := 0
-		th.stack.Push(callFrame{
-			Fn:         fn,
-			Pc:         0,
-			Base:       base,
-			LocalBase:  base + 1,
-			ReturnBase: base,
-			NArgs:      0,
-			NRet:       MultRet,
-			Parent:     nil,
-			TailCall:   0,
-		})
-	}
 
 	if ls.G.CurrentThread == th {
 		return ResumeError, newApiErrorS(ApiErrorRun, "can not resume a running thread"), nil
@@ -2095,6 +2081,19 @@ func (ls *LState) Resume(th *LState, fn *LFunction, args ...LValue) (ResumeState
 	// handing the arguments over and setting the first frame up can fail (registry overflow): the
 	// thread becomes the running one only after that
 	if !isstarted {
+		// (the first frame is pushed only now: a resume that was refused above leaves the thread as it was)
+		base := 0
+		th.stack.Push(callFrame{
+			Fn:         fn,
+			Pc:         0,
+			Base:       base,
+			LocalBase:  base + 1,
+			ReturnBase: base,
+			NArgs:      0,
+			NRet:       MultRet,
+			Parent:     nil,
+			TailCall:   0,
+		})
 		th.Dead = true // until its first frame is complete
 		cf := th.stack.Last()
 		th.currentFrame = cf
